@@ -7,3 +7,9 @@ package sel
 type Sibling interface {
 	Sib(*SrcS) *Dst
 }
+
+// Shared is an ordinary interface of another file; a converter interface of the input file that
+// embeds it has its methods too.
+type Shared interface {
+	FromSibling(*SrcB) *Dst
+}
